@@ -220,6 +220,52 @@ struct SymF : public Sym {
   SymF& operator /= (const Sym& o) { return *this = SymF (Sym(*this) / o); }
 };
 
+
+// ---------------------------------------------------------------------------
+// std::complex<Sym>: the generic libstdc++ template with the same formulas,
+// plus implicit construction from arithmetic literals (`T r = 0;`,
+// `const T& a = 0.0` compile for T = complex<double>, so they must here).
+namespace std {
+  template<> struct complex<Sym> {
+    typedef Sym value_type;
+    Sym _M_real, _M_imag;
+    complex (const Sym& r = Sym(), const Sym& i = Sym()) : _M_real (r), _M_imag (i) { }
+    template<class A, SYMX_ARITH(A)> complex (A a) : _M_real (Sym(a)), _M_imag (Sym()) { }
+    template<class A, class B, SYMX_ARITH(A), SYMX_ARITH(B)> complex (A a, B b) : _M_real (Sym(a)), _M_imag (Sym(b)) { }
+    template<class A, SYMX_ARITH(A)> complex (const Sym& a, A b) : _M_real (a), _M_imag (Sym(b)) { }
+    template<class A, SYMX_ARITH(A)> complex (A a, const Sym& b) : _M_real (Sym(a)), _M_imag (b) { }
+    template<class X> complex (const complex<X>& z) : _M_real (z.real()), _M_imag (z.imag()) { }
+    Sym real () const { return _M_real; }
+    Sym imag () const { return _M_imag; }
+    void real (const Sym& v) { _M_real = v; }
+    void imag (const Sym& v) { _M_imag = v; }
+    complex& operator = (const Sym& t) { _M_real = t; _M_imag = Sym(); return *this; }
+    complex& operator += (const Sym& t) { _M_real += t; return *this; }
+    complex& operator -= (const Sym& t) { _M_real -= t; return *this; }
+    complex& operator *= (const Sym& t) { _M_real *= t; _M_imag *= t; return *this; }
+    complex& operator /= (const Sym& t) { _M_real /= t; _M_imag /= t; return *this; }
+    template<class A, SYMX_ARITH(A)> complex& operator = (A a) { return *this = Sym(a); }
+    template<class A, SYMX_ARITH(A)> complex& operator *= (A a) { return *this *= Sym(a); }
+    template<class A, SYMX_ARITH(A)> complex& operator /= (A a) { return *this /= Sym(a); }
+    template<class X> complex& operator = (const complex<X>& z) { _M_real = z.real(); _M_imag = z.imag(); return *this; }
+    template<class X> complex& operator += (const complex<X>& z) { _M_real += z.real(); _M_imag += z.imag(); return *this; }
+    template<class X> complex& operator -= (const complex<X>& z) { _M_real -= z.real(); _M_imag -= z.imag(); return *this; }
+    template<class X> complex& operator *= (const complex<X>& z) {
+      const Sym r = _M_real * z.real() - _M_imag * z.imag();
+      _M_imag = _M_real * z.imag() + _M_imag * z.real();
+      _M_real = r;
+      return *this;
+    }
+    template<class X> complex& operator /= (const complex<X>& z) {
+      const Sym r = _M_real * z.real() + _M_imag * z.imag();
+      const Sym n = z.real() * z.real() + z.imag() * z.imag();
+      _M_imag = (_M_imag * z.real() - _M_real * z.imag()) / n;
+      _M_real = r / n;
+      return *this;
+    }
+  };
+}
+
 // ---------------------------------------------------------------------------
 // elementary functions in the global namespace (the repo calls ::exp etc.)
 #define SYMX_UN(NAME, OP, EXPR) \
